@@ -202,6 +202,7 @@ let job_frag (job : Sx.t) : string =
   let safe = TSemSafe.safe_program_ok p in
   let cov = Fragment.covered_program lfuel p in
   let total = safe && TSemTotal.params_ok p && TSemTotal.fuel_enough lfuel p in
+  let wtcov = TSemSemFullWt.wt_covered (nat_of_int 400) p in
   (* optional (inss ..): how many of the inputs are canonical encodings *)
   let canon = match Sx.try_field job "inss" with
     | None -> ""
@@ -211,5 +212,5 @@ let job_frag (job : Sx.t) : string =
           let ins = Stdlib.List.map (fun s -> bits_of_string (Sx.bytes s)) (Sx.list one) in
           TSemSemFull.canonical_main_args p ins) all) in
       Printf.sprintf " (canon %d %d)" n (Stdlib.List.length all) in
-  Printf.sprintf "(imp %d) (kfree %s) (safe %d) (cov %d) (total %d)%s" (if imp then 1 else 0) k (if safe then 1 else 0)
-    (if cov then 1 else 0) (if total then 1 else 0) canon
+  Printf.sprintf "(imp %d) (kfree %s) (safe %d) (cov %d) (total %d) (wtcov %d)%s" (if imp then 1 else 0) k (if safe then 1 else 0)
+    (if cov then 1 else 0) (if total then 1 else 0) (if wtcov then 1 else 0) canon
